@@ -106,10 +106,28 @@ def c03_oracle(c, tmpdir, rng):
             if not missing and o[0] == "untrusted":
                 fails.append(f"audit-blocks: the same list object, {label} in place, misses nothing but load raised UntrustedTypesFoundException{o[1][:4]}")
                 break
+    # a container/type loader that names an array class calls e.g. numpy.ndarray(shape): uninitialised memory, an indeterminate value
+    def indeterminate(st):
+        if isinstance(st, dict):
+            if st.get("__class__") in ("ndarray", "matrix", "memmap", "recarray", "chararray", "MaskedArray", "empty") and \
+                    st.get("__loader__") not in ("NdArrayNode", "MaskedArrayNode"):
+                return True
+            return any(indeterminate(v) for v in st.values())
+        if isinstance(st, list):
+            return any(indeterminate(v) for v in st)
+        return False
+
+    if indeterminate(c.schema):
+        results["ok"] = []
     # enlarging T never changes a successfully loaded result
     oks = [(T, form, o) for T, form, o in results.get("ok", []) if o[0] == "ok"]
     for (T1, f1, o1), (T2, f2, o2) in zip(oks, oks[1:]):
         d = same(o1[1], o2[1])
+        if d:
+            # a construct that is not deterministic by itself (e.g. `numpy.ndarray(())`: uninitialised memory) says nothing about T
+            again = outcome(lambda: loads(c.data, trusted=list(T1)))
+            if again[0] == "ok" and same(o1[1], again[1]):
+                continue
         if d:
             fails.append(f"result-depends-on-T: loading with trusted={T1} ({f1}) and {T2} ({f2}) gives different objects: {d}")
             break
